@@ -209,7 +209,7 @@ func vc06GenEnc(t *rapid.T) (vc06Enc, []vc06Cont) {
 		if official && typ != 3 {
 			// the official reader derives array/bitmap from the cardinality
 			typ = 1
-			if len(vals) >= 4096 {
+			if len(vals) > 4096 { // RoaringFormatSpec: an array container holds up to 4096 values
 				typ = 2
 			}
 		}
@@ -474,7 +474,7 @@ func vc06RefDecode(d []byte) (vals []uint64, status string) {
 			runBM = d[pos : pos+(n+7)/8]
 			pos += (n + 7) / 8
 			if n >= 4 {
-				return nil, vc06RefDubious // offset header present in the spec, see D4: not judged here
+				return nil, vc06RefDubious // an offset header follows (RoaringFormatSpec); the generators stay below 4 containers
 			}
 		}
 		if n > 1<<16 || pos+4*n > len(d) {
@@ -499,10 +499,7 @@ func vc06RefDecode(d []byte) (vals []uint64, status string) {
 			}
 			prevKey = key
 			typ := 1
-			if card == 4096 {
-				return nil, vc06RefDubious // array per the spec, bitmap per the reader: not judged here
-			}
-			if card > 4096 {
+			if card > 4096 { // RoaringFormatSpec: an array container holds up to 4096 values
 				typ = 2
 			}
 			if runBM != nil && runBM[i/8]&(1<<(uint(i)%8)) != 0 {
